@@ -7,7 +7,7 @@ from ..canon import Snap
 from ..mon_output import mon_balance_output
 
 PROPERTY = 'C14'
-CASES = {'quick': 120, 'thorough': 1500}
+CASES = {'quick': 360, 'thorough': 2880}
 BUDGET_S = {'quick': 300, 'thorough': 2400}
 RULE = ('case = one portfolio solved through the real code twice: unsplit (setup_optim_problem) and split (setup_split_optim_problem, interval sizes '
         '6h/8h/12h/d/2d) on horizons not aligned with the interval (06:00 starts, partial last interval), with wacc != 0 in part of the assets, '
@@ -21,8 +21,8 @@ RULE = ('case = one portfolio solved through the real code twice: unsplit (setup
 ASSUMPTIONS = ['"nothing couples the intervals" = no storage, take period, scaled asset, order spanning a boundary, plant, coarse or periodic asset',
                'storage-coupled cases exclude (inflow != 0 and holding cost != 0): the constant holding cost of inflow is not part of EAO\'s value (documented) and differs between a per-interval and a whole-horizon tail sum',
                'value tolerance 1e-5 (MIP 2e-4) relative, feasibility 1e-6 scaled']
-MIN_NONVACUOUS = {'quick': {'split.value_is_sum_of_intervals': 80, 'split.rows_match_unsplit': 60, 'split.solution_feasible_in_unsplit': 60,
-                            'split.uncoupled_equals_unsplit': 25, 'split.storage_coupled_not_above_unsplit': 20, 'split.balance_on_original_grid': 60},
+MIN_NONVACUOUS = {'quick': {'split.value_is_sum_of_intervals': 200, 'split.rows_match_unsplit': 150, 'split.solution_feasible_in_unsplit': 150,
+                            'split.uncoupled_equals_unsplit': 62, 'split.storage_coupled_not_above_unsplit': 50, 'split.balance_on_original_grid': 150},
                   'thorough': {'split.value_is_sum_of_intervals': 1000, 'split.solution_feasible_in_unsplit': 800, 'split.uncoupled_equals_unsplit': 300,
                                'split.storage_coupled_not_above_unsplit': 300}}
 
